@@ -23,6 +23,7 @@ pub mod c42;
 pub mod conv;
 pub mod exchange;
 pub mod exchange2;
+pub mod exchange3;
 pub mod gt;
 pub mod lp;
 pub mod lpstake;
@@ -31,6 +32,7 @@ pub mod oracle_ix;
 pub mod perp;
 pub mod pure;
 pub mod revertible;
+pub mod revertible_vi;
 pub mod rvfix;
 pub mod sdkdiff;
 pub mod smoke;
@@ -71,7 +73,7 @@ pub const REGISTRY: &[(&str, fn(&mut Ctx))] = &[
     ("C39", c39::run),
     ("C19", c19::run),
     ("C20", c20::run),
-    ("C21", revertible::run_c21),
+    ("C21", run_c21_all),
     ("C22", run_c22_all),
     ("C23", run_c23_all),
     ("C33", c33::run),
@@ -125,4 +127,11 @@ fn run_c23_all(ctx: &mut crate::engine::Ctx) {
     exchange::run_c23(ctx);
     exchange2::run_c23_glv(ctx);
     exchange2::run_c23_decrease(ctx);
+    exchange3::run_c23_native(ctx);
+}
+
+/// C21: pools / clocks / other state / deferred mint-burn + the virtual inventory buffers.
+fn run_c21_all(ctx: &mut crate::engine::Ctx) {
+    revertible::run_c21(ctx);
+    revertible_vi::run_c21_vi(ctx);
 }
